@@ -82,7 +82,12 @@ CarriedFaceEdge(r) ==
     Has(r.carried, "face_edge") =>
       IF ~Has(r.got, "face_edge") THEN FALSE
       ELSE IF r.carry_exact
-           THEN r.got.face_edge = r.carried.face_edge
+           THEN IF r.fe_slots = "fixed" THEN r.got.face_edge = r.carried.face_edge
+                ELSE /\ Len(r.got.face_edge) = Len(r.carried.face_edge)      \* the same edges for every face
+                     /\ \A f \in 1..Len(r.carried.face_edge) :
+                           /\ RowSet(r.got.face_edge[f]) = RowSet(r.carried.face_edge[f])
+                           /\ Len(Unpadded(r.got.face_edge[f])) = Len(Unpadded(r.carried.face_edge[f]))
+                           /\ PadOnlyAtEnd(r.got.face_edge[f])
            ELSE Has(r.got, "edge_node") /\
                 IsFaceEdgeTable(SrcMesh(r), r.got.edge_node, r.got.face_edge, MaxSize(SrcMesh(r)))
 \* only the edge table was supplied: the face_edge table derived afterwards indexes the carried edge table
